@@ -7,6 +7,8 @@
 #ifdef SSW_CBMC
 void h_hmm_vit_eval_3st_lr(void) { hmm_t *h; hmm_vit_eval_3st_lr(h); VERIF_CANARY(); }
 void h_hmm_vit_eval(void) { hmm_t *h; hmm_vit_eval(h); VERIF_CANARY(); }
+void h_hmm_clear(void) { hmm_t *h; hmm_clear(h); VERIF_CANARY(); }
+void h_hmm_normalize(void) { hmm_t *h; int32 b; hmm_normalize(h, b); VERIF_CANARY(); }
 void h_hmm_enter(void) { hmm_t *h; int32 sc, hi; int fr; hmm_enter(h, sc, hi, fr); VERIF_CANARY(); }
 void h_hmm_vit_eval_3st_lr_mpx(void) { hmm_t *h; hmm_vit_eval_3st_lr_mpx(h); VERIF_CANARY(); }
 #endif
